@@ -1995,4 +1995,119 @@ theorem rmulPy_isOk (m : Option Int) (e : Equil α) :
 
 end field
 
+/-! ### eliminate for any number of equilibria; success of eliminate and cancel -/
+
+theorem divAll_eq (R : Int) (vs : List Int) (h : ∀ v ∈ vs, v ≠ 0) : divAll R vs = .ok (vs.map (Int.fdiv R)) := by
+  induction vs with
+  | nil => rfl
+  | cons v t ih =>
+    have hv : v ≠ 0 := h v (by simp)
+    simp only [divAll, hv, if_false, ih (fun x hx => h x (List.mem_cons_of_mem _ hx)), List.map_cons]
+    rfl
+
+theorem divAll_isOk (R : Int) (vs : List Int) : (∃ ms, divAll R vs = .ok ms) ↔ ∀ v ∈ vs, v ≠ 0 := by
+  constructor
+  · induction vs with
+    | nil => intro _ v hv; cases hv
+    | cons v t ih =>
+      rintro ⟨ms, h⟩ x hx
+      simp only [divAll] at h
+      split at h
+      · cases h
+      · rename_i hv
+        obtain ⟨r, hr, _⟩ := bind_ok h
+        rcases List.mem_cons.1 hx with hx | hx
+        · rw [hx]; exact hv
+        · exact ih ⟨r, hr⟩ x hx
+  · intro h; exact ⟨_, divAll_eq R vs h⟩
+
+/-- `eliminate` returns multipliers **iff** it is given at least one equilibrium and every one has a non-zero net
+    coefficient of the species (else `IndexError` / `ZeroDivisionError`) -/
+theorem eliminate_isOk (rs : List (Equil α)) (wrt : String) :
+    (∃ ms, eliminate rs wrt = .ok ms) ↔ rs ≠ [] ∧ ∀ e ∈ rs, e.net wrt ≠ 0 := by
+  cases rs with
+  | nil => simp [eliminate]
+  | cons e0 es =>
+    simp only [eliminate, List.map_cons, ne_eq, reduceCtorEq, not_false_eq_true, true_and]
+    rw [divAll_isOk]
+    simp only [List.mem_cons, List.mem_map, forall_eq_or_imp]
+    constructor
+    · rintro ⟨h0, h⟩
+      refine ⟨by omega, fun e he => h _ ⟨e, he, rfl⟩⟩
+    · rintro ⟨h0, h⟩
+      refine ⟨by omega, ?_⟩
+      rintro v ⟨e, he, rfl⟩
+      exact h e he
+
+/-- For ANY number of equilibria with non-zero net coefficients `νᵢ` of `wrt`: `eliminate` returns one non-zero integer per
+    equilibrium, and the first one combined with any other removes the species: `m₀·ν₀ + mᵢ·νᵢ = 0`. -/
+theorem eliminate_many (e0 : Equil α) (es : List (Equil α)) (wrt : String)
+    (h0 : e0.net wrt ≠ 0) (h : ∀ e ∈ es, e.net wrt ≠ 0) :
+    ∃ (m0 : Int) (ms : List Int), eliminate (e0 :: es) wrt = .ok (m0 :: ms) ∧ m0 ≠ 0 ∧
+      List.Forall₂ (fun m e => m ≠ 0 ∧ m0 * e0.net wrt + m * e.net wrt = 0) ms es := by
+  have hR0 : 0 < rcdOf (factorsOf (e0.net wrt :: es.map (fun r => r.net wrt))) := rcdOf_pos _ (factorsOf_keys_pos _)
+  have hd0 : e0.net wrt ∣ ((rcdOf (factorsOf (e0.net wrt :: es.map (fun r => r.net wrt))) : Nat) : Int) :=
+    int_dvd_rcd _ _ (by simp) h0
+  have hd : ∀ e ∈ es, e.net wrt ∣ ((rcdOf (factorsOf (e0.net wrt :: es.map (fun r => r.net wrt))) : Nat) : Int) := by
+    intro e he
+    exact int_dvd_rcd _ _ (List.mem_cons_of_mem _ (List.mem_map.2 ⟨e, he, rfl⟩)) (h e he)
+  generalize hR : ((rcdOf (factorsOf (e0.net wrt :: es.map (fun r => r.net wrt))) : Nat) : Int) = R at *
+  have hRpos : 0 < R := by rw [← hR]; exact_mod_cast hR0
+  have hn0 : e0.net wrt * -1 ≠ 0 := by omega
+  have hd0' : (e0.net wrt * -1) ∣ R := by
+    obtain ⟨c, hc⟩ := hd0
+    exact ⟨-c, by rw [hc]; ring⟩
+  have e0' := Int.fdiv_mul_cancel hd0'
+  have e3 : Int.fdiv R (e0.net wrt * -1) * e0.net wrt = -R := by
+    have : Int.fdiv R (e0.net wrt * -1) * (e0.net wrt * -1) = -(Int.fdiv R (e0.net wrt * -1) * e0.net wrt) := by ring
+    omega
+  refine ⟨Int.fdiv R (e0.net wrt * -1), es.map (fun e => Int.fdiv R (e.net wrt)), ?_, ?_, ?_⟩
+  · have hall : ∀ v ∈ (e0.net wrt * -1) :: es.map (fun r => r.net wrt), v ≠ 0 := by
+      intro v hv
+      rcases List.mem_cons.1 hv with hv | hv
+      · rw [hv]; exact hn0
+      · obtain ⟨e, he, rfl⟩ := List.mem_map.1 hv; exact h e he
+    unfold eliminate
+    simp only [List.map_cons, hR]
+    rw [divAll_eq R _ hall]
+    simp [List.map_map, Function.comp_def]
+  · intro hz; rw [hz] at e0'; omega
+  · clear hR hR0
+    induction es with
+    | nil => exact List.Forall₂.nil
+    | cons e t ih =>
+      simp only [List.map_cons]
+      refine List.Forall₂.cons ?_ (ih (fun x hx => h x (List.mem_cons_of_mem _ hx)) (fun x hx => hd x (List.mem_cons_of_mem _ hx)))
+      have he := Int.fdiv_mul_cancel (hd e (by simp))
+      refine ⟨?_, by omega⟩
+      intro hz; rw [hz] at he; omega
+
+/-- `cancel` returns a value **iff** every species of `rxn` has a non-zero net coefficient in `rxn` (else `ZeroDivisionError`) -/
+theorem cancelWith_isOk (self rxn : Equil α) (ks : List String) :
+    (∃ c, cancelWith self rxn ks = .ok c) ↔ ∀ k ∈ ks, rxn.net k ≠ 0 := by
+  constructor
+  · rintro ⟨c, h⟩; exact (cancelWith_ok h).1
+  · intro h
+    rw [cancelWith_eq]
+    suffices hs : ∀ (ks : List String) (cand : Option Int), (∀ k ∈ ks, rxn.net k ≠ 0) →
+        ∃ c, ks.foldlM (cancelStep self rxn) cand = .ok c from hs ks none h
+    intro ks
+    induction ks with
+    | nil => intro cand _; exact ⟨cand, rfl⟩
+    | cons k t ih =>
+      intro cand hk
+      have hk0 : rxn.net k ≠ 0 := hk k (by simp)
+      have hstep : ∃ c1, cancelStep self rxn cand k = .ok c1 := by
+        unfold cancelStep intdivPy
+        simp only [hk0, if_false]
+        cases cand with
+        | none => exact ⟨_, rfl⟩
+        | some x =>
+          simp only
+          split <;> exact ⟨_, rfl⟩
+      obtain ⟨c1, hc1⟩ := hstep
+      obtain ⟨c, hc⟩ := ih c1 (fun x hx => hk x (List.mem_cons_of_mem _ hx))
+      exact ⟨c, by rw [List.foldlM_cons, hc1]; exact hc⟩
+
+
 end ChemModel.Equilibria
